@@ -297,6 +297,35 @@ def _only_inplace(f, d):
     return False
 
 
+def _through_params(prog, classes, f, call, v, vf, depth=2):
+    """The constructor argument as the *callers* supply it: when the value is a parameter of a private helper that
+    wraps the constructor call (`_derive_instance(self, graph, constraints)`), it is followed to every call site of
+    that helper in the class family (extract-method invariance); otherwise it is the value itself."""
+    if isinstance(v, ast.Name) and v.id in vf.params and v.id not in ('self', 'cls') and depth > 0 and \
+            not any(isinstance(s_, ast.Assign) and norm(s_.targets[0]) == v.id for s_ in walk_fn(vf)):
+        found = False
+        for g in prog.all_functions():
+            if g.owner_class not in classes:
+                continue
+            for c2 in calls(g):
+                if isinstance(c2.func, ast.Attribute) and isinstance(c2.func.value, ast.Name) and \
+                        c2.func.value.id in ('self', 'cls') and c2.func.attr == vf.name:
+                    hp = [q for q in vf.params if q not in ('self', 'cls')]
+                    arg = None
+                    if v.id in hp and hp.index(v.id) < len(c2.args):
+                        arg = c2.args[hp.index(v.id)]
+                    for k in c2.keywords:
+                        if k.arg == v.id:
+                            arg = k.value
+                    if arg is None:
+                        continue
+                    found = True
+                    yield from _through_params(prog, classes, g, c2, arg, g, depth - 1)
+        if found:
+            return
+    yield f, call, v, vf
+
+
 def check_constructor_store(ctx, cls_key=DSG, rule='A11s'):
     """Containers of a graph that are mutated in place somewhere must not be shared between an existing and a
     new graph object: the constructor copies its argument, or every constructor call passes a fresh object."""
@@ -358,9 +387,10 @@ def check_constructor_store(ctx, cls_key=DSG, rule='A11s'):
                             continue
                         for kw_arg, v, vf in _effective_keywords(prog, f, call):
                             if kw_arg == p:
-                                sites += 1
-                                if not _fresh_value(vf, v):
-                                    bad.append((f, call, v))
+                                for bf, bcall, bv, bvf in _through_params(prog, classes, f, call, v, vf):
+                                    sites += 1
+                                    if not _fresh_value(bvf, bv):
+                                        bad.append((bf, bcall, bv))
                 info_only = [b for b in bad if b[0].name == 'get_for_kept_edges']
                 real = [b for b in bad if b[0].name != 'get_for_kept_edges']
                 if sites == 0:
